@@ -52,8 +52,10 @@ def graph_histories(transitions, inits, keyf=None):
 class RegistryDriver:
     SPEC = "registry:RegistryDriver"
 
-    def __init__(self, universe=1, props=("C01", "C02", "C15")):
-        self.kwargs = {"universe": universe, "props": list(props)}
+    def __init__(self, universe=1, props=("C01", "C02", "C15"), seeds=(), foreign=()):
+        self.kwargs = {"universe": universe, "props": list(props), "seeds": list(seeds), "foreign": list(foreign)}
+        self.seeds = list(seeds)
+        self.foreign = list(foreign)
         self.nbase = 3 if universe == 1 else 4
         self.props = set(props)
 
@@ -65,13 +67,52 @@ class RegistryDriver:
         self.U = alpha.Universe({t: BDIMS[t] for t in toks})
         from IPython.lib.pretty import pretty   # import once in the pristine parent, not per fork
         import measured.json  # noqa: F401
+        import measured.si  # noqa: F401  (registered prefixes: the properties speak of registered prefixes)
         self.pretty = pretty
+        # seed units: built by ordinary algebra before any history starts
+        self.seed_objs = {}
+        for rec in self.seeds:
+            self.seed_objs[self.U.nf_of_spec(rec)] = self._build(rec)
+        # blobs "from another process": a forked child builds and serialises, this process never sees the objects
+        self.blobs = {}
+        if self.foreign:
+            from core import run_isolated
+            self.blobs = run_isolated(self._foreign_blobs)
         bad = alpha.table_check()
         if bad:
             raise MachineryError("table inconsistent before any operation: %r" % bad[:3])
 
+    def _build(self, rec):
+        m = self.m
+        u = m.One
+        for tok, e in sorted(rec["f"].items()):
+            if e:
+                u = u * self.U.unit_of[tok] ** e
+        if rec["p"]:
+            u = m.Prefix(10, rec["p"]) * u
+        return u
+
+    def _foreign_blobs(self):
+        out = {}
+        recs = list(self.foreign) + list(self.seeds) + [{"p": 0, "f": {t: (1 if t == b else 0) for t in self.U.tokens}} for b in self.U.tokens]
+        for rec in recs:
+            u = self._build(rec)
+            for kind in (0, 1, 2, 3):
+                val = u if kind == 0 else self._mag(kind) * u
+                for codec in ("pickle", "json"):
+                    try:
+                        out["%s|%s|%d" % (json.dumps(self.U.nf_of_spec(rec)), codec, kind)] = self._dump(val, codec)
+                    except Exception as ex:
+                        out["%s|%s|%d" % (json.dumps(self.U.nf_of_spec(rec)), codec, kind)] = "!" + type(ex).__name__
+        return out
+
+    def _mag(self, kind):
+        from decimal import Decimal
+        return {1: 5, 2: 5.0, 3: Decimal("5.0")}[kind]
+
     def fresh_ctx(self):
         obj = {self.U.nf(self.m.One): self.m.One}
+        obj.update(self.seed_objs)
         for t in self.U.tokens:
             u = self.U.unit_of[t]
             obj[self.U.nf(u)] = u
@@ -82,16 +123,22 @@ class RegistryDriver:
         m, U, A = self.m, self.U, self.alpha
         op = ev["op"]
         mm = []
-        a = ctx["obj"].get(U.nf_of_spec(ev["a"]))
-        if a is None:
+        a = self._arg(ctx, ev["a"])
+        if a is None and op != "loadf":
             return [{"prop": "DRIFT", "key": "arg-missing", "detail": "no object for %r" % (ev["a"],)}]
-        b = ev["k"] if op in ("render", "dump", "load") else ev["n"]
+        b = ev["k"] if op in ("render", "dump", "load", "loadf") else ev["n"]
+        kind = ev["n"] if op in ("dump", "load", "loadf") else 0
         if op in ("mul", "div", "touch"):
-            b = ctx["obj"].get(U.nf_of_spec(ev["b"]))
+            b = self._arg(ctx, ev["b"])
             if b is None:
                 return [{"prop": "DRIFT", "key": "arg-missing", "detail": "no object for %r" % (ev["b"],)}]
         before = dict(m.Unit._known)
         out, res = "ok", []
+        blob = orig = None
+        if op == "load":
+            blob, orig = ctx["blob"][(U.nf(a), b, kind)], ctx["blobobj"][(U.nf(a), b, kind)]
+        elif op == "loadf":
+            blob = self.blobs["%s|%s|%d" % (json.dumps(U.nf_of_spec(ev["a"])), b, kind)]
         try:
             if op == "mul":
                 res = [a * b]
@@ -129,14 +176,22 @@ class RegistryDriver:
                     pass  # which conversions succeed / how they fail is C07's business
                 res = []
             elif op == "dump":
-                ctx["blob"][(U.nf(a), b)] = self._dump(a, b)
+                val = a if kind == 0 else self._mag(kind) * a
+                ctx["blob"][(U.nf(a), b, kind)] = self._dump(val, b)
+                ctx["blobobj"] = ctx.get("blobobj", {})
+                ctx["blobobj"][(U.nf(a), b, kind)] = val
                 res = []
-            elif op == "load":
-                res = [_apply_load(self, ctx, a, b)]
+            elif op in ("load", "loadf"):
+                if blob.startswith("!"):
+                    raise _DumpFailed(blob[1:])
+                got = self._load(blob, b, orig)
+                res = self._judge_loaded(got, kind, b, a, ev, mm, op)
             else:
                 raise MachineryError("unknown op %r" % op)
         except m.FractionalDimensionError:
             out = "Fractional"
+        except _DumpFailed as ex:
+            out = "DUMP:" + str(ex)
         except MachineryError:
             raise
         except Exception as ex:  # any other escape
@@ -144,6 +199,8 @@ class RegistryDriver:
 
         exp_out = ev["out"]
         tag = "%s" % op if op != "render" else "render-%s" % b
+        if op in ("dump", "load", "loadf"):
+            tag = "%s-%s" % (op, b)
         # --- outcome class
         if out != exp_out:
             if op == "root" and exp_out == "Fractional" and out == "ok":
@@ -152,8 +209,16 @@ class RegistryDriver:
                 mm.append(self._mm("C02", "%s:refused-exact-root" % tag,
                                    "%s.root(%s) raised FractionalDimensionError but the exponents divide exactly" % (A.key_str(a), b)))
             else:
-                mm.append(self._mm("C15" if op in ("dump", "load") else "C02", "%s:outcome" % tag,
-                                   "expected %s got %s on %s" % (exp_out, out, A.key_str(a))))
+                if op in ("load", "loadf") and b == "json" and kind > 0 and blob and not blob.startswith("!") \
+                        and " " in json.loads(blob).get("unit", ""):
+                    # the unit text carries a folded magnitude ("1000 m²"), which the grammar cannot read as a unit
+                    mm.append(self._mm("C15", "json-quantity:unit-text-with-folded-magnitude:%s" % out,
+                                       "%s of a %s quantity of %s: unit text %r -> %s" % (op, _KINDS[kind], _short({"op": "", "a": ev["a"]})["a"], json.loads(blob)["unit"], out)))
+                elif op in ("dump", "load", "loadf"):
+                    mm.append(self._mm("C15", "%s-%s-%s:outcome:%s:%s" % (op, b, _KINDS[kind], out, self._shape(ev["a"])),
+                                       "%s of %s (%s) via %s: %s" % (op, _short({"op": "", "a": ev["a"]})["a"], _KINDS[kind], b, out)))
+                else:
+                    mm.append(self._mm("C02", "%s:outcome" % tag, "expected %s got %s on %s" % (exp_out, out, A.key_str(a))))
         # --- results: normal form (group laws), dimension, identity
         if out == "ok" and exp_out == "ok" and res:
             for i, r in enumerate(res):
@@ -165,13 +230,13 @@ class RegistryDriver:
                 if op in ("as_ratio",):
                     pass  # which split is returned is not prescribed; its dimension is (below)
                 elif nf != want:
-                    mm.append(self._mm("C15" if op == "load" else "C02", "%s:normal-form" % tag,
+                    mm.append(self._mm("C15" if op in ("load", "loadf") else "C02", "%s:normal-form" % tag,
                                        "%s(%s, %s) gave %s, group law says %s" % (op, A.key_str(a), b if op not in ("mul", "div") else A.key_str(b), nf, want)))
                 dv = A.dimvec(r.dimension)
                 if nf == want and dv != ev["d"][i]:
                     mm.append(self._mm("C01", "%s:result-dimension" % tag,
                                        "%s of %s reports dimension %s, factors give %s" % (op, A.key_str(a), dv, ev["d"][i])))
-                self._see(ctx, r, nf, mm, tag, "C15" if op == "load" else "C02")
+                self._see(ctx, r, nf, mm, tag, "C15" if op in ("load", "loadf") else "C02")
         elif out == "ok" and res:
             for r in res:
                 if isinstance(r, m.Unit):
@@ -188,13 +253,25 @@ class RegistryDriver:
             if tuple(u.dimension.exponents) != ex and oid not in ctx["chg"]:
                 ctx["chg"].add(oid)
                 mm.append(self._mm("C01", "%s:dimension-changed" % tag, "%s changed its dimension" % A.key_str(u)))
-        if op == "load" and len(now) != len(before):
+        if op == "load" and kind == 0 and len(now) != len(before):
             mm.append(self._mm("C15", "load-%s:table-grew" % b, "loading %s added %d table entries" % (A.key_str(a), len(now) - len(before))))
         new = len(now) - len(before)
         if new:
             stats["created"] = stats.get("created", 0) + 1
         stats["op:" + op] = stats.get("op:" + op, 0) + 1
         return [x for x in mm if x["prop"] in self.props or x["prop"] == "DRIFT"]
+
+    def _arg(self, ctx, rec):
+        """the live object for a spec unit; units the spec interned as a side effect (rendering) are
+        looked up in the implementation's table"""
+        nf = self.U.nf_of_spec(rec)
+        o = ctx["obj"].get(nf)
+        if o is None:
+            for u in self.m.Unit._known.values():
+                if self.U.nf(u) == nf:
+                    ctx["obj"][nf] = o = u
+                    break
+        return o
 
     def _see(self, ctx, r, nf, mm, tag, prop):
         """identity bookkeeping: one object per normal form, for ever"""
@@ -209,6 +286,10 @@ class RegistryDriver:
     def _mm(self, prop, key, detail):
         return {"prop": prop, "key": key, "detail": detail}
 
+    def _shape(self, rec):
+        es = sorted(e for e in rec["f"].values() if e)
+        return ("prefixed " if rec["p"] else "") + "exps=%s" % (es,)
+
     def _dump(self, a, codec):
         if codec == "pickle":
             return pickle.dumps(a).hex()
@@ -219,26 +300,72 @@ class RegistryDriver:
             return json.dumps(a, cls=MeasuredJSONEncoder)
         raise MachineryError(codec)
 
+    def _load(self, blob, codec, orig):
+        if codec == "pickle":
+            return pickle.loads(bytes.fromhex(blob))
+        if codec == "copy":
+            return copy.copy(orig)
+        if codec == "deepcopy":
+            return copy.deepcopy(orig)
+        if codec == "json":
+            from measured.json import MeasuredJSONDecoder
+            return json.loads(blob, cls=MeasuredJSONDecoder)
+        raise MachineryError(codec)
 
-# copy/deepcopy need the object itself; keep it simple by storing the nf and looking it up
-def _apply_load(driver, ctx, a, codec):
-    if codec == "pickle":
-        return pickle.loads(bytes.fromhex(ctx["blob"][(driver.U.nf(a), codec)]))
-    if codec == "copy":
-        return copy.copy(a)
-    if codec == "deepcopy":
-        return copy.deepcopy(a)
-    if codec == "json":
-        from measured.json import MeasuredJSONDecoder
-        return json.loads(ctx["blob"][(driver.U.nf(a), codec)], cls=MeasuredJSONDecoder)
-    raise MachineryError(codec)
+    def _judge_loaded(self, got, kind, codec, a, ev, mm, op):
+        """returns the list of Unit results to be judged like any other result"""
+        m = self.m
+        if kind == 0:
+            if isinstance(got, m.Unit):
+                # a unit's prefix and dimension must round-trip to the identical objects too
+                for part, name in ((got.prefix, "prefix"), (got.dimension, "dimension")):
+                    for c2 in ("pickle", "copy", "deepcopy", "json"):
+                        try:
+                            back = self._load(self._dump(part, c2), c2, part)
+                        except Exception as ex:
+                            back = ex
+                        if back is not part:
+                            mm.append(self._mm("C15", "%s-%s:%s-not-identical" % (op, c2, name), "%s of %r came back as %r" % (name, got, back)))
+                names = (got.names, got.symbols)
+                if a is not None and got is a and ctx_names(a) != names:
+                    mm.append(self._mm("C15", "%s-%s:names-changed" % (op, codec), "names/symbols changed"))
+            return [got]
+        want_type = type(self._mag(kind))
+        if not isinstance(got, m.Quantity):
+            mm.append(self._mm("C15", "%s-%s-%s:not-a-quantity" % (op, codec, _KINDS[kind]), "got %r" % (got,)))
+            return []
+        if type(got.magnitude) is not want_type:
+            mm.append(self._mm("C15", "%s-%s-%s:magnitude-type" % (op, codec, _KINDS[kind]),
+                               "magnitude came back as %s %r" % (type(got.magnitude).__name__, got.magnitude)))
+        if got.magnitude != self._mag(kind):
+            mm.append(self._mm("C15", "%s-%s-%s:magnitude-value" % (op, codec, _KINDS[kind]), "magnitude %r" % (got.magnitude,)))
+        if codec == "json":
+            # an equal quantity is demanded, not the identical unit object
+            want = self.U.nf_of_spec(ev["a"])
+            if self.U.nf(got.unit) != want:
+                mm.append(self._mm("C15", "%s-json-%s:unit-differs:%s" % (op, _KINDS[kind], self._shape(ev["a"])),
+                                   "unit came back as %s" % (self.U.nf(got.unit),)))
+            return []
+        return [got.unit]
+
+
+def ctx_names(u):
+    return (u.names, u.symbols)
+
+
+class _DumpFailed(Exception):
+    pass
+
+
+_KINDS = {0: "unit", 1: "int", 2: "float", 3: "Decimal"}
 
 
 # ------------------------------------------------------------------------------ checks
 
 def tlc_registry(label, depth, ops="", shipped="", universe=1, export=True, simulate=None, seed=None,
-                 timeout=3000):
-    env = {"VERIF_DEPTH": depth, "VERIF_UNIVERSE": universe}
+                 timeout=3000, seeds=0, foreign=1, kinds=4):
+    env = {"VERIF_DEPTH": depth, "VERIF_UNIVERSE": universe, "VERIF_SEEDS": seeds, "VERIF_FOREIGN": foreign,
+           "VERIF_KINDS": kinds}
     if ops:
         env["VERIF_OPS"] = ops
     if shipped:
@@ -282,29 +409,36 @@ def run_registry(prop, tier, seed):
         "alpha reads Unit._known, unit.prefix/.factors/.dimension; prefixes of base 10 only in this model",
         "text of renderings is never compared",
     ]
-    depth = 2 if tier == "quick" else 3
+    q = tier == "quick"
     configs = []
     if prop in ("C01", "C02"):
-        configs.append(("alg", dict(depth=depth, ops="", universe=1)))
-        configs.append(("touch", dict(depth=2, ops="touch", universe=1)))
-        if tier == "thorough":
+        configs.append(("alg", dict(depth=2 if q else 3, ops="", universe=1)))
+        configs.append(("alg_seeded", dict(depth=1 if q else 2, ops="", universe=1, seeds=1)))
+        configs.append(("roots", dict(depth=2 if q else 3, ops="roots", universe=1, seeds=1)))
+        configs.append(("touch", dict(depth=2, ops="touch", universe=1, seeds=0 if q else 1)))
+        configs.append(("foreign", dict(depth=2, ops="foreign", universe=1, seeds=1, foreign=1 if q else 2, kinds=2)))
+        if not q:
             configs.append(("alg_u2", dict(depth=2, ops="", universe=2)))
     if prop == "C15":
-        configs.append(("codec", dict(depth=depth + 1, ops="codec", universe=1)))
+        configs.append(("codec", dict(depth=2, ops="codec", universe=1, seeds=1)))
+        configs.append(("foreignq", dict(depth=2, ops="foreignq", universe=1, seeds=1, foreign=1)))
+        if not q:
+            configs.append(("foreign", dict(depth=2, ops="foreign", universe=1, seeds=1, foreign=1)))
     samples = []
     for label, kw in configs:
         res = tlc_registry(label, **kw)
         require_ok(res, "MC_Registry[%s]" % label)
-        v.add_tlc(res, "MC_Registry[%s depth=%s]" % (label, kw["depth"]))
+        v.add_tlc(res, "MC_Registry[%s %s]" % (label, kw))
         trans = res.exports.get("T", [])
         if not trans:
             raise MachineryError("no transitions exported by MC_Registry[%s]" % label)
         hists, nstates = graph_histories(trans, res.exports.get("I", []))
-        drv = RegistryDriver(universe=kw["universe"])
-        rep = replay_histories(hists, drv)
+        sf = res.exports["SEEDS"][0]
+        drv = RegistryDriver(universe=kw["universe"], seeds=sf["seeds"], foreign=sf["foreign"])
+        rep = replay_histories(hists, drv, label="reg_" + label)
         v.impl += rep["n"]
         v.evaluations += rep["n"]
-        v.nontrivial += rep["stats"].get("created", 0)
+        v.nontrivial += rep["stats"].get("created", 0) if prop != "C15" else rep["stats"].get("op:load", 0) + rep["stats"].get("op:loadf", 0)
         v.add_violations(rep["mm"])
         v.extra.setdefault("replay", []).append({"config": label, "transitions_exported": len(trans),
                                                  "spec_states": nstates, "executed": rep["n"],
@@ -316,26 +450,31 @@ def run_registry(prop, tier, seed):
     if prop == "C01":
         nonvacuity(v)
     # deep random behaviours from TLC's simulator, replayed the same way
-    if prop in ("C01", "C02"):
-        n, d = (300, 8) if tier == "quick" else (4000, 12)
-        res = tlc_registry("sim", d, universe=2, simulate=n, seed=seed)
-        require_ok(res, "MC_Registry[simulate]")
-        v.add_tlc(res, "MC_Registry[simulate num=%d depth=%d]" % (n, d))
-        hists = [[e for e in b if e["op"] != "init"] for b in res.behaviours]
-        trans = [e for h in hists for e in h]
-        nstates = len(trans)
-        if not hists:
-            raise MachineryError("simulation exported no behaviours")
-        rep = replay_histories(hists, RegistryDriver(universe=2), split_depth=1)
-        v.impl += rep["n"]
-        v.evaluations += rep["n"]
-        v.nontrivial += rep["stats"].get("created", 0)
-        v.add_violations(rep["mm"])
-        v.extra.setdefault("replay", []).append({"config": "simulate", "transitions_exported": len(trans),
-                                                 "spec_states": nstates, "executed": rep["n"]})
-    v.rule = ("cases = transitions of the TLC state graph of MC_Registry (one real execution each, in a forked "
-              "process whose state is the spec's from-state); non-trivial = executions that created at least one "
-              "new Unit._known entry (the only moments at which a stored dimension / a canonical object is decided)")
+    n, d = (150, 8) if q else (3000, 12)
+    ops = "" if prop in ("C01", "C02") else "codec"
+    simu = 1 if (q or prop == "C15") else 2
+    res = tlc_registry("sim", d, ops=ops, universe=simu, simulate=n, seed=seed, seeds=0 if q else 1)
+    require_ok(res, "MC_Registry[simulate]")
+    v.add_tlc(res, "MC_Registry[simulate num=%d depth=%d ops=%s]" % (n, d, ops or "all"))
+    hists = [[e for e in b if e["op"] != "init"] for b in res.behaviours]
+    if not hists:
+        raise MachineryError("simulation exported no behaviours")
+    from alpha_seeds import seeds_for
+    rep = replay_histories(hists, RegistryDriver(universe=simu, seeds=[] if q else seeds_for(simu)),
+                           split_depth=1, label="reg_sim")
+    v.impl += rep["n"]
+    v.evaluations += rep["n"]
+    v.nontrivial += rep["stats"].get("created", 0) if prop != "C15" else rep["stats"].get("op:load", 0)
+    v.add_violations(rep["mm"])
+    v.extra.setdefault("replay", []).append({"config": "simulate", "behaviours": len(hists), "executed": rep["n"]})
+    if prop == "C15":
+        v.rule = ("cases = transitions of the TLC state graph of MC_Registry with Dump/Load/LoadForeign actions (units and "
+                  "quantities of int/float/Decimal magnitude; pickle, copy, deepcopy, JSON), one real execution each; "
+                  "non-trivial = executions of a Load or LoadForeign")
+    else:
+        v.rule = ("cases = transitions of the TLC state graph of MC_Registry (one real execution each, in a forked "
+                  "process whose state is the spec's from-state); non-trivial = executions that created at least one "
+                  "new Unit._known entry (the only moments at which a stored dimension / a canonical object is decided)")
     v.samples = samples
     return v.finish()
 
